@@ -1,5 +1,5 @@
 CONSTANTS NodeId = 5  PoolN = 16  WalkLen = 45  HbInit = 3  NT = 2  NR = 2  Depth = 2  SrvNode = 9  CfgName = "full"
-CONSTANT HcInit <- FHc  Objs <- FObjs  ObjOrder <- FOrder  V0 <- FV0  TC0 <- FTC  RC0 <- FRC  Sync0 <- FSync  Tbl <- FTbl  Groups <- FGroups  ProbeLetters <- FProbe
+CONSTANT RandLetter <- FRand  NRand <- FNRand  HcInit <- FHc  Objs <- FObjs  ObjOrder <- FOrder  V0 <- FV0  TC0 <- FTC  RC0 <- FRC  Sync0 <- FSync  Tbl <- FTbl  Groups <- FGroups  ProbeLetters <- FProbe
 INIT Init
 NEXT Next
 INVARIANT InvFull
